@@ -141,31 +141,35 @@ pub fn on_recv_wait(addr: &String, buffered: usize) {
 
 pub use crate::session::verif_hooks::*;
 
-use std::collections::HashMap;
-
 /// Outcome of one scripted announce: the reply body (parsed exactly like a real HTTP body) or a
 /// transport/HTTP error text.
 pub type TrackerOutcome = Result<Vec<u8>, String>;
 
 thread_local! {
-    static DIAL: RefCell<HashMap<String, DuplexStream>> = RefCell::new(HashMap::new());
+    static DIALER: RefCell<Option<Box<dyn FnMut(&str) -> Option<Dial>>>> = RefCell::new(None);
     static TRACKER: RefCell<Option<Box<dyn FnMut(u64) -> TrackerOutcome>>> = RefCell::new(None);
     static TRACKER_CALLS: Cell<u64> = Cell::new(0);
     static FAILPOINT: RefCell<Option<Box<dyn FnMut(&'static str) -> Option<u64>>>> = RefCell::new(None);
 }
 
-/// Register an in-memory endpoint: the next outgoing connection to `addr` gets `mem` instead of
-/// dialling TCP.
-pub fn register_dial(addr: &str, mem: DuplexStream) {
-    DIAL.with(|d| d.borrow_mut().insert(addr.to_string(), mem));
+/// Answer of the harness' dialer for one outgoing connection attempt.
+pub enum Dial {
+    /// Use this in-memory pipe as the socket.
+    Mem(DuplexStream),
+    /// Behave as if `TcpStream::connect` had failed.
+    Refused,
 }
 
-pub fn clear_dials() {
-    DIAL.with(|d| d.borrow_mut().clear());
+/// Install (or remove) the dialer consulted by `PeerHandler::run_incoming` before TCP is tried.
+pub fn set_dialer(f: Option<Box<dyn FnMut(&str) -> Option<Dial>>>) {
+    DIALER.with(|d| *d.borrow_mut() = f);
 }
 
-pub fn dial(addr: &String) -> Option<DuplexStream> {
-    DIAL.with(|d| d.borrow_mut().remove(addr))
+pub fn dial(addr: &String) -> Option<Dial> {
+    DIALER.with(|d| match d.borrow_mut().as_mut() {
+        Some(f) => f(addr.as_str()),
+        None => None,
+    })
 }
 
 /// Script the tracker: `script(n)` gives the outcome of the n-th announce (0-based, counted over
